@@ -316,7 +316,7 @@ func TypesWith(c explore.Chooser, opt TypesOpt) *prog.Program {
 	slotFirst := s.Pick("slot.position", "last", "first") == "first"
 	neighbourTag := s.Pick("union.neighbour-tag", "", "`json:\"name\"`", "`json:\"-\"`", "`json:\"n,omitempty\"`")
 	unionFieldTag := s.Pick("union.field-tag", "", "`json:\"-\"`", "`json:\"sh\"`", "`json:\"sh,omitempty\"`", "`gomacro:\"ignore\"`", "`json:\"-,\"`", "`json:\"-,omitempty\"`", "`gomacro-data:\"ignore\"`")
-	embedded := s.Pick("embedded", "none", "exported", "unexported", "tagged", "from-sub", "non-struct", "tagged-same-name", "tagged-omitempty", "unexported-in-member", "pointer", "shared-first-3", "refers-back", "other-file")
+	embedded := s.Pick("embedded", "none", "exported", "unexported", "tagged", "from-sub", "non-struct", "tagged-same-name", "tagged-omitempty", "unexported-in-member", "pointer", "shared-first-3", "refers-back", "other-file", "tagged-omitempty-holding-union")
 	reexport := s.Pick("root-const-of-sub-enum", "no", "yes")
 	style := s.Pick("decl.style", "separate", "grouped", "same-line")
 	dartRoot := s.Pick("dart.root", "under-go-src", "outside-go-src")
@@ -518,6 +518,10 @@ func TypesWith(c explore.Chooser, opt TypesOpt) *prog.Program {
 		add("type Invoice struct {\n\tBase3\n\tTotal int\n}")
 		add("type Customer struct {\n\tBase3\n\tEmail string\n}")
 		embField = "\tInv   Invoice\n\tCust  Customer\n"
+	case "tagged-omitempty-holding-union":
+		// the embedded struct holds a union itself (it has JSON routines of its own, which Go promotes)
+		add("type UBase struct {\n\tCreated int\n\tSub     Shape\n}")
+		embField = "\tUBase `json:\",omitempty\"`\n"
 	case "refers-back":
 		// an embedded struct declared before the struct embedding it, and referring back to it
 		add("type Base struct {\n\tCreated int\n\tOwner   string\n\tKids    []Item\n}")
